@@ -52,8 +52,28 @@ def gen_c11(r, n):
         if r.random() < 0.5:
             sc += [('S', 2, 'r', 10 * MS, 'f'), ('F', 2, 'g')]
         cases.append((cfg, sc))
+    # RTU framing (no transaction id): the first frame delivered while a request is outstanding decides it; a late
+    # reply to a timed-out request is taken as the reply to the next one
+    for k in (1, 2, 3):
+        for pattern in ('in-order', 'late-reply-taken-by-next', 'idle-frames', 'split'):
+            cfg = {'cap': 16, 'handles': 1, 'mt': 0, 'rmin': 20 * MS, 'rmax': 40 * MS, 'rtu': 1}
+            sc = cl.connected_prefix()
+            if pattern == 'idle-frames':
+                sc += [('F', 0, 'g'), ('P', 0, 'e'), ('Q',)]
+            for i in range(k):
+                sc.append(('S', i, 'r', 10 * MS, 'fcx'[i % 3]))
+            for i in range(k):
+                if pattern == 'late-reply-taken-by-next':
+                    sc += [('T', 10 * MS), ('F', i, 'geb'[i % 3])]
+                elif pattern == 'split':
+                    sc += [('P', i, 'geb'[i % 3]), ('T', MS), ('Q',)]
+                else:
+                    sc.append(('F', i, 'geb'[i % 3]))
+            cases.append((cfg, sc))
     while len(cases) < n:
         cfg = cl.default_cfg(r, mt=r.choice([0, 0, 0, 2]), handles=1)
+        if r.random() < 0.25:
+            cfg['rtu'] = 1
         pre = cl.connected_prefix(r.choice('fx'))
         w = {'S': 6, 'F': 8, 'P': 1.5, 'Q': 6, 'T': 3, 'E': 0.3, 'D': 0.2, 'H': 0, 'A': 0.05, 'X': 0.1, 'W': 0.3, 'V': 0.2,
              'Z': 0.2, 'R': 0.2, 'G': 0.2, 'L': 0.2}
@@ -233,7 +253,7 @@ def late_partial_family(ctx, n):
     Spec for request 1: the first frame with transaction id 1 that the MBAP length fields cut from the WHOLE stream of the
     connection (Spec ref_client_result evaluated in Coq on the concatenated bytes)."""
     r = ctx.rng
-    lines, terms, wants = [], [], []
+    lines, terms, wants, sess = [], [], [], []
     for _ in range(n):
         fake = mbap(1, [3, 2, 0xBE, 0xEF])                                  # 11 bytes that look like a reply to tx 1
         pad = [r.randrange(256) for _ in range(r.choice([1, 3, 5]))]
@@ -256,22 +276,30 @@ def late_partial_family(ctx, n):
         lines.append('cap=4 handles=1 mt=0 rmin=20000000 rmax=40000000 | ' + ' '.join(steps))
         stream = reply0 + reply1
         terms.append(f'(Base.ClientTypes.RReadHoldingRegisters (200, 1), 1, [{";".join(str(b) for b in stream)}], Base.Frame.FinPending)')
+        nl = lambda b: '[' + ';'.join(str(x) for x in b) + ']'
+        ch1 = [reply0[cut:]] + [bytes.fromhex(x[2:]) for x in steps[8:]]
+        sess.append(f'[(Base.ClientTypes.RReadHoldingRegisters (100, {n0}), [{nl(reply0[:cut])}]); (Base.ClientTypes.RReadHoldingRegisters (200, 1), [{"; ".join(nl(list(c)) for c in ch1 if len(c))}])]')
     impl = ctx.harness('client', lines, shards=4)
     ctx.build_models(['Spec.SystemClientShow'])
     spec = ctx.coq_eval(['Spec.SystemClientShow', 'Base.ClientTypes', 'Base.Frame'], 'eval_spec', terms,
                         case_type='Base.ClientTypes.request * N * list N * Base.Frame.fin')
+    # the same two exchanges through the composed model `client_session` (one reader for the connection) and its Spec
+    msess = [None] * len(lines)
+    if cl.MODEL_OK and ctx.build_models(['Model.SystemClientEval']):
+        msess = ctx.coq_eval(['Model.SystemClientEval', 'Base.ClientTypes'], 'eval_session', sess, case_type='list (Base.ClientTypes.request * list (list N))')
     bad = 0
-    for line, i, want in zip(lines, impl, spec):
+    for line, i, want, ms in zip(lines, impl, spec, msess):
         p = cl.parse(cl.canon(i))
         got = {cid: cls for cid, cls, _ in p['comp']} if p else {}
         ended = [t for t in (p['task'] if p else []) if t[0] == 'e']
         r0, r1 = got.get(100), got.get(200, 'Pending')
-        if r0 != 'Timeout' or r1 != want or ended:
+        model_ok = ms is None or (ms.split('|')[0] == ms.split('|')[1] and ms.split('|')[0].split() == ['Pending', want])
+        if r0 != 'Timeout' or r1 != want or ended or not model_ok:
             bad += 1
             if bad == 1:
                 ctx.violation('C11.late-remainder-of-a-timed-out-reply-disturbs-the-next-request',
                               f'[{line}]: request 100 must time out and request 200 (tx 1) must see {want} (Spec: first frame with tx 1 in the whole stream), the connection must stay up; '
-                              f'the client reports 100 -> {r0}, 200 -> {r1}, session ends {ended}; impl={i}',
+                              f'the client reports 100 -> {r0}, 200 -> {r1}, session ends {ended}; client_session|ref_session = {ms}; impl={i}',
                               {'late_partial': [line], 'impl': i, 'spec_for_second_request': want})
     ctx.oblige('correspondence:late-remainder-then-next-request-vs-spec-on-the-whole-stream', bad == 0, f'{bad} of {len(lines)}')
     return len(lines)
